@@ -13,19 +13,19 @@ TEXT = {
  "C03": ("exploration", "schema-directed valid instances, every single-keyword boundary mutant and random JSON are posted to regenerated servers; verdicts from two independent JSON-Schema oracles (Go reference validator + python jsonschema) used only where they agree", "rapid PBT, differential oracle (two reference validators vs generated decode+validate)"),
  "C04": ("exploration", "instance-directed and value-directed JSON round trips on regenerated types: well-formed, valid against the source schema (reference validator), decode==value, re-encode equal", "rapid PBT, round-trip + reference-model oracle"),
  "C05": ("exploration", "bounded-exhaustive small route sets + rapid random route sets regenerated into servers and probed with instances, near misses, exhaustive short paths, 9 methods, prefix; reference template matcher on the template strings (clauses S,P,C,N,A,F)", "bounded-exhaustive enumeration + rapid PBT against a reference model"),
- "C06": ("exploration", "the admitted style matrix is re-derived by running the real parser+generator; encoders/decoders are driven with the callback shapes generated code uses over bounded-exhaustive and random values against a reference serializer written from the OpenAPI style table, round trip, refusal of active delimiters, cookie escaping inverse, no panic", "bounded-exhaustive enumeration + rapid PBT, reference serializer and round-trip oracles"),
+ "C06": ("exploration", "the admitted style matrix is re-derived by running the real parser+generator; encoders/decoders are driven with the callback shapes generated code uses over bounded-exhaustive and random values against a reference serializer written from the OpenAPI style table, round trip, refusal of active delimiters, cookie escaping inverse, no panic; admission of a parameter is independent of other parameters that refer to the same component schema (all pairs)", "bounded-exhaustive enumeration + rapid PBT, reference serializer and round-trip oracles"),
  "C07": ("exploration", "random reference graphs over all component kinds (shared targets under different names, cross-file chains, escaped pointers, cycles, over-deep chains) with an own inliner: parse(spec) ~ parse(inlined), generator class/operation signature equal, cycle and depth diagnostics, Expand round trip; every case in a worker subprocess with watchdog", "rapid PBT, metamorphic oracle (referencing == inlining)"),
  "C08": ("exploration", "bounded-exhaustive + random ECMA-262 pattern ASTs x subject strings; ogenregex vs two independent oracles (regexp2 ECMAScript mode and a reference matcher validated against V8 offline and frozen), engine choice for the fall-back family, String()==source", "bounded-exhaustive enumeration + rapid PBT, differential oracle"),
- "C09": ("exploration", "requirement structures exhaustive for <=2/<=3 schemes and sampled to 20 schemes, regenerated client+server, all verdict vectors (absent/accept/reject/skip) against a boolean model; SecuritySource -> SecurityHandler credential equality incl. OAuth2 scopes", "exhaustive enumeration + rapid PBT against a boolean reference model"),
+ "C09": ("exploration", "requirement structures exhaustive for <=2/<=3 schemes and sampled to 20 schemes, regenerated client+server, all verdict vectors (absent/accept/reject/skip) against a boolean model; SecuritySource -> SecurityHandler credential equality incl. OAuth2 scopes; alternatives skipped for an unimplemented scheme kind", "exhaustive enumeration + rapid PBT against a boolean reference model"),
  "C10": ("exploration", "rapid state machine over generation histories (sequential, concurrent pairs, GOMAXPROCS changes, GC) with byte equality to the first generation, plus fresh worker processes per repetition (fresh map seeds); whole binary under the race detector", "stateful rapid PBT + race detector, equality-across-runs oracle"),
- "C11": ("exploration", "structure-aware single-fault mutants of corpus documents in JSON and YAML spellings, byte-level mutants and hostile constants, each in worker subprocesses with watchdog and memory ceiling: no panic / hang / fatal; positions inside the document and on the fault chain; JSON vs YAML spelling agree", "rapid PBT / fuzzing with totality, position and metamorphic oracles"),
+ "C11": ("exploration", "structure-aware single-fault mutants of corpus documents and of a rich accepted document (every site x every structural fault, bounded-exhaustive in the quick tier) in JSON and YAML spellings, byte-level mutants and hostile constants, each in worker subprocesses with watchdog and memory ceiling: no panic / hang / fatal; positions inside the document and on the fault chain; JSON vs YAML spelling agree", "rapid PBT / fuzzing with totality, position and metamorphic oracles"),
  "C12": ("exploration", "all strings up to length 6/8 over an 11-byte escape alphabet + rapid strings against a token-wise reference normaliser, octet equality, canonical form, idempotence; spec path keys modulo the equivalence; equivalent re-escapings of served requests on regenerated servers", "bounded-exhaustive enumeration + rapid PBT against a reference implementation"),
  "C13": ("exploration", "every conv / json helper pair (enumerated from the code and the generator's format mapping): exhaustive for 8/16-bit ints and bools, boundary+random elsewhere; parse(format(v))==v and independent syntax recognisers for each declared format", "exhaustive enumeration + rapid PBT, round-trip and recogniser oracles"),
  "C14": ("exploration", "complete enumeration of the go:generate directives of internal/integration and examples, run with tools built from /repo into scratch targets, byte comparison with the checked-in files", "exhaustive enumeration (finite domain), byte-equality oracle"),
- "C15": ("exploration", "valid requests captured from the regenerated client are mutated (directed mutations with expected status class; undirected body/header/query/URL-struct mutations that bypass net/http validation) and served through ServeHTTP with a counting writer under recover", "mutation-based fuzzing of requests against regenerated servers with a stage->status oracle"),
+ "C15": ("exploration", "valid requests captured from the regenerated client are mutated (directed mutations with expected status class, incl. integers just outside their declared format; undirected body/header/query/URL-struct mutations that bypass net/http validation) and served through ServeHTTP with a counting writer under recover", "mutation-based fuzzing of requests against regenerated servers with a stage->status oracle"),
  "C16": ("exploration", "random documents with adversarial member names x every valid pointer to every node in plain and fragment spelling, single-edit mutants and random strings against an independent RFC 6901 evaluator with node identity", "rapid PBT against a reference evaluator"),
  "C17": ("exploration", "corpus, negative fixtures and YAML-sensitive synthetic documents re-spelt by independent JSON/YAML emitters (styles, indentation, comments, quoting, anchors); generated files byte-identical / same diagnostic modulo positions", "rapid PBT, metamorphic oracle (re-spelling invariance)"),
- "C18": ("exploration", "pairs/triples of JSON texts (re-spellings, near-equal mutants incl. >2^53 and huge exponents, malformed texts) against an exact reference comparison; equivalence laws; duplicate-enum rejection through the real schema parser", "rapid PBT against an exact reference model + algebraic laws"),
+ "C18": ("exploration", "pairs/triples of JSON texts (re-spellings, near-equal mutants incl. >2^53 and huge exponents, malformed texts) against an exact reference comparison; equivalence laws; duplicate-enum rejection through the real schema parser; numeric bounds compared by gen/reduce.go (convenient errors forced) against the same reference", "rapid PBT against an exact reference model + algebraic laws"),
  "C19": ("exploration", "call lists over all operations of regenerated client/server pairs compiled with -race, run sequentially and by 2/8/64 goroutines under several GOMAXPROCS values; race reports, per-call outcome equality with the sequential run, multiset of handler-received arguments", "concurrent PBT under the race detector, sequential-equivalence oracle"),
  "C20": ("fault_enumeration", "47 concrete pre-write failure stages of the built cmd/ogen crossed with fixed and rapid-drawn target-directory states and --clean on/off: exit code and before/after snapshots; success runs check that only own-pattern files are removed/created", "fault enumeration x rapid-drawn directory states, snapshot-equality oracle"),
 }
